@@ -15,7 +15,7 @@ are fixed in /repo (591c3d3, e7caa59, 9149f75); their witnesses are the C16_old_
 import math, os, re
 import vlib
 
-PROP_FILES = ["Properties_C16.v"]
+PROP_FILES = ["Properties_C16.v", "Properties_gen.v"]
 U32 = 1 << 32
 CLAUSES = ["entry-whole-bytes", "entry-multiple-of-256-bits", "sdf-divides-spd", "block-entries-divide-eps",
            "sumdf-divides-eps", "spd>=min", "sdf>=min", "eps>=min", "sumdf>=min", "anno>=min", "utc>=min"]
